@@ -209,7 +209,7 @@ def check_plain(case):
 def describe_case(draw):
     # within ONE describe() the generated field names p<int(q*100)> must differ (namedtuple rejects duplicates: invalid
     # input); ACROSS describe() calls quantiles with the same name (0.99 / 0.995 / 0.999, 0.28 / 0.29) are legal
-    qs = [draw(st.lists(st.sampled_from([0.1, 0.25, 0.28, 0.29, 0.5, 0.75, 0.9, 0.99, 0.999, 0.995]), min_size=1, max_size=3,
+    qs = [draw(st.lists(st.sampled_from([0.1, 0.25, 0.28, 0.29, 0.5, 0.75, 0.9, 0.99, 0.999, 0.995, 1, 1.0, 0]), min_size=1, max_size=3,
                         unique_by=lambda v: int(v * 100)))
           for _ in range(draw(st.integers(1, 3)))]
     xs = draw(st.lists(st.integers(-50, 200), min_size=4, max_size=40))
